@@ -523,7 +523,7 @@ def r1(db, rep, runs, rid="R1"):
                   "%s|detail_on" % arch, db.where(body), "disassembly can run without CS_OPT_DETAIL having been enabled")
     site_allow = {k: v["reason"] for k, v in reviewed.items()}
     panics.reach_rule(db, rep, r, entries, scope_prefixes=("translator::", "<translator::"), site_allow=site_allow,
-                      extra_discharge=discharge, floor=300)
+                      extra_discharge=discharge, floor=200)
     rep.notes.append({"R1_discharge_stats": stats, "R1_reviewed_entries": len(reviewed)})
 
 
